@@ -413,8 +413,9 @@ class IntEval:
                     raise IntEval._Return(r)
                 if isinstance(op, (ast.In, ast.NotIn)):
                     ok = (l in r) if isinstance(op, ast.In) else (l not in r)
-                elif isinstance(op, (ast.Eq, ast.NotEq)):
-                    ok = (l == r) if isinstance(op, ast.Eq) else (l != r)
+                elif isinstance(op, (ast.Eq, ast.NotEq, ast.Is, ast.IsNot)):
+                    # identity of enum members / small table values is equality in this value model
+                    ok = (l == r) if isinstance(op, (ast.Eq, ast.Is)) else (l != r)
                 else:
                     ok = {ast.Lt: lambda: l < r, ast.LtE: lambda: l <= r, ast.Gt: lambda: l > r, ast.GtE: lambda: l >= r}.get(type(op), lambda: None)()
                 if ok is None:
